@@ -183,16 +183,85 @@ func init() {
 		if lat > 4*time.Second {
 			fast = "0"
 		}
-		return fmt.Sprintf("ret=%s fast=%s listener=%s post=%s h1idle=%s inflight=%s drain=%s during=%s", ret, fast, lnState, post, idleState, ifl, early, during)
+		// C16 at shutdown: every accepted connection — those refused while draining included — is counted exactly once
+		counted := "n/a"
+		if kv["early"] != "1" {
+			deadline := time.Now().Add(5 * time.Second)
+			for {
+				acc, closed := env.accepted.stats()
+				total := 0
+				for _, v := range gatherRequestsTotal(env) {
+					total += v
+				}
+				if closed == acc && total == acc {
+					counted = "ok"
+					break
+				}
+				if time.Now().After(deadline) {
+					counted = fmt.Sprintf("%d/accepted=%d/closed=%d", total, acc, closed)
+					break
+				}
+				time.Sleep(20 * time.Millisecond)
+			}
+		}
+		return fmt.Sprintf("ret=%s fast=%s listener=%s post=%s h1idle=%s inflight=%s drain=%s during=%s counted=%s", ret, fast, lnState, post, idleState, ifl, early, during, counted)
+	})
+
+	// shutdown2: ONE server serving TWO listeners (Serve may be called more than once); after cancellation both calls must
+	// return the standard error and both sockets must be closed
+	registerOp("shutdown2", func(a []string) string {
+		o := defaultE2EOpts()
+		env := newE2EEnv(o)
+		defer env.close()
+		ln2, err := net.Listen("tcp", "127.0.0.1:0")
+		if err != nil {
+			return "fail=listen"
+		}
+		served2 := make(chan error, 1)
+		go func() { served2 <- env.stack.Server.Serve(ln2) }()
+		time.Sleep(50 * time.Millisecond)
+		for _, addr := range []string{env.addr, ln2.Addr().String()} {
+			if c, err := net.DialTimeout("tcp", addr, time.Second); err == nil {
+				c.Close()
+			}
+		}
+		env.cancel()
+		res := func(ch chan error, put bool) string {
+			select {
+			case err := <-ch:
+				if put {
+					ch <- err
+				}
+				if errors.Is(err, http.ErrServerClosed) {
+					return "errclosed"
+				}
+				return "other:" + strings.ReplaceAll(fmt.Sprint(err), " ", "_")
+			case <-time.After(4 * time.Second):
+				return "hang"
+			}
+		}
+		r1, r2 := res(env.served, true), res(served2, false)
+		st := func(addr string) string {
+			if c, err := net.DialTimeout("tcp", addr, 300*time.Millisecond); err == nil {
+				c.Close()
+				return "open"
+			}
+			return "closed"
+		}
+		out := fmt.Sprintf("ret1=%s ret2=%s ln1=%s ln2=%s", r1, r2, st(env.addr), st(ln2.Addr().String()))
+		ln2.Close()
+		return out
 	})
 
 	register("shutdown", "C17: cancel at every point of a workload against the real stack", func(c *ctx) {
+		c.tag("two-listeners")
+		c.op("shutdown2")
 		c.op("shutdown h1idle=0 h2open=0 stalled=0 inflight=0 early=1 twice=0")
 		c.op("shutdown h1idle=0 h2open=0 stalled=0 inflight=0 early=0 twice=1")
 		c.op("shutdown h1idle=1 h2open=1 stalled=0 inflight=0 early=0 twice=0 hold=1")
 		// the binary itself (Run: flags, signal handling, ListenAndServe) stopped by each signal the statement names
-		for _, sig := range []string{"TERM", "INT", "TERM", "INT"} {
-			c.tag("binary-signal:" + sig)
+		for _, sig := range []string{"TERM", "INT", "TERM", "INT", "INT again=INT", "TERM again=INT", "TERM again=TERM", "INT again=TERM"} {
+			c.tag("binary-signal:" + strings.ReplaceAll(sig, " ", "+"))
 			c.op("binsig sig=" + sig)
 		}
 		for i := 0; i < c.count; i++ {
